@@ -11,5 +11,5 @@ seq 0 $((J-1)) | xargs -P $J -I{} sh -c "python3 tools/seed_matrix.py --shard {}
 python3 tools/seed_matrix.py --merge > $L/matrix-merge.log 2>&1
 echo "== quick";   grep -c "^== " $L/quick.log; grep -E "VIOLATION|FINDING" $L/quick.log | head
 echo "== mutants"; cat $L/mut-*.log | grep "^mutants:" | awk '{c+=$2; o+=$4; m+=$6; s+=$8} END {print c" caught, "o" caught-other, "m" missed, "s" skipped"}'; grep -h "MISSED\|skipped" $L/mut-*.log | grep -v "^mutants:" | head -20
-echo "== benign";  cat $L/benign-*.log | grep "^benign edits:" | awk '{q+=$3; f+=$5; s+=$8} END {print q" quiet, "f" false alarms, "s" skipped"}'; grep -h "FALSE-ALARM\|skipped" $L/benign-*.log | grep -v "^benign edits" | head
+echo "== benign";  cat $L/benign-*.log | grep "^benign edits:" | awk '{q+=$3; f+=$5; s+=$8; k+=$10} END {print q" quiet, "f" false alarms, "s" skipped, "k" known-limit"}'; grep -h "FALSE-ALARM\|skipped \|known-limit " $L/benign-*.log | grep -v "^benign edits" | head
 echo "== seeds";   cat $L/matrix-merge.log
